@@ -16,6 +16,8 @@
 #include <sys/mman.h>
 #include <sys/stat.h>
 #include <unistd.h>
+#include <sys/wait.h>
+#include <csignal>
 
 #include "prng.h"
 
@@ -312,6 +314,73 @@ inline void lateViolation(const std::string& key, const std::string& detail)
     fprintf(f, "{\"prop\":\"%s\",\"key\":\"%s\",\"case\":-3,\"seed\":%" PRIu64 ",\"tier\":\"%s\",\"detail\":\"%s\",\"input\":\"fixed set of the probe that runs outside main()\"}\n",
             l.prop.c_str(), jsonEscape(key).c_str(), l.seed, l.tier.c_str(), jsonEscape(detail).c_str());
     fclose(f);
+}
+
+// Runs a probe (a fixed set of library calls that returns one line per call) in a forked child with an alarm and returns its
+// lines. Used for the probes that run during static initialisation: a call that crashes, is aborted by a sanitizer or never comes
+// back there is observed (a last line "PROBE-DIED ...") instead of taking the driver down before main().
+inline std::vector<std::string> probeInChild(const std::function<std::vector<std::string>()>& fn, unsigned seconds = 10)
+{
+    int fd[2];
+    if (pipe(fd) != 0)
+        return fn();
+    fflush(nullptr);
+    pid_t pid = fork();
+    if (pid < 0)
+    {
+        close(fd[0]);
+        close(fd[1]);
+        return fn();
+    }
+    if (pid == 0)
+    {
+        close(fd[0]);
+        alarm(seconds);
+        std::string all;
+        for (auto& l : fn())
+            all += l + "\n";
+        size_t off = 0;
+        while (off < all.size())
+        {
+            ssize_t w = write(fd[1], all.data() + off, all.size() - off);
+            if (w <= 0)
+                break;
+            off += static_cast<size_t>(w);
+        }
+        _exit(0);
+    }
+    close(fd[1]);
+    std::string all;
+    static char buf[65536];
+    ssize_t n;
+    while ((n = read(fd[0], buf, sizeof buf)) > 0)
+        all.append(buf, static_cast<size_t>(n));
+    close(fd[0]);
+    int st = 0;
+    waitpid(pid, &st, 0);
+    std::vector<std::string> out;
+    size_t a = 0;
+    while (a < all.size())
+    {
+        size_t b = all.find('\n', a);
+        if (b == std::string::npos)
+            b = all.size();
+        out.push_back(all.substr(a, b - a));
+        a = b + 1;
+    }
+    if (!WIFEXITED(st) || WEXITSTATUS(st) != 0)
+        out.push_back(std::string("PROBE-DIED: the calls made during static initialisation ended with ") +
+                      (WIFSIGNALED(st) ? "signal " + std::to_string(WTERMSIG(st)) + (WTERMSIG(st) == SIGALRM ? " (no return within " + std::to_string(seconds) + " seconds)" : (WTERMSIG(st) == SIGABRT ? " (abort, e.g. a sanitizer report)" : ""))
+                                       : "exit status " + std::to_string(WEXITSTATUS(st))) +
+                      " after " + std::to_string(out.size()) + " results");
+    return out;
+}
+inline std::string probeDied(const std::vector<std::string>& lines)
+{
+    for (auto& l : lines)
+        if (l.rfind("PROBE-DIED", 0) == 0)
+            return l;
+    return "";
 }
 
 inline int driverMain(int argc, char** argv, const CountFn& countFn, const CaseFn& caseFn)
